@@ -921,7 +921,7 @@ class Ctx(object):
                 pass
         for t in self.uf_apps:
             try:
-                out["uf:" + str(t)] = model_value(model, t)
+                out["uf:" + t.sexpr()[:400]] = model_value(model, t)
                 args = [model_value(model, t.arg(i)) for i in range(t.num_args())]
                 out["ufpt:%s:%s" % (t.decl().name(), ",".join(str(float(a)) for a in args))] = model_value(model, t)
             except Exception:
@@ -948,8 +948,8 @@ class PathResult(object):
         self.pc_size = len(ctxobj.pc)
         self.decisions = list(ctxobj.decisions)
         self.obligations = ctxobj.obligations
-        self.assumed = [str(a)[:300] for a in ctxobj.assumed[:12]] if index < 3 else []
-        self.auto = [str(a)[:300] for a in ctxobj.auto[:12]] if index < 3 else []
+        self.assumed = [a.sexpr()[:300] for a in ctxobj.assumed[:12]] if index < 3 else []
+        self.auto = [a.sexpr()[:300] for a in ctxobj.auto[:12]] if index < 3 else []
         self.events = ctxobj.events
         self.solver_time = ctxobj.solver_time
         self.feas_queries = ctxobj.feas_queries
